@@ -118,6 +118,7 @@ def check_programs(tier, seed):
             ("CHR2", 11, "z_last4", ["AAAAAAAAAGAAAAAAAAAA", "AAAAAAAAATAAAAAAAAAA", "AAAATAAAAGAAAAAAAAAA"], "0.5,0.3,0.2,0"),
             ("CHR2", 11, "z_mid4", ["AAAAAAAAAGAAAAAAAAAA", "AAAAAAAAATAAAAAAAAAA", "AAAATAAAAGAAAAAAAAAA"], "0.5,0,0.3,0.2"),
             ("CHR1", 6, "z_two_last", ["AAAAAAAAAAGAAAAAATAA", "ACAAAAAAAAGAAAAAACAA"], "1,0,0"),
+            ("CHR3", 21, "z_all", ["AAAAAAAAAAGAAAAAATAA", "ACAAAAAAAAGAAAAAACAA"], "0,0,0"),
         ]
         with open(zero_vcf, "w") as f:
             f.write("##fileformat=VCFv4.3\n##contig=<ID=CHR1,length=60>\n##contig=<ID=CHR2,length=60>\n##contig=<ID=CHR3,length=60>\n")
